@@ -56,7 +56,7 @@ func (cx *Ctx) endpointTable(fn *ssa.Function) (map[string]map[string]bool, []st
 			if f := calleeOf(c); f != nil && w.FuncKey(f) == "provider.(Endpoint).Absolute" {
 				p := fx.path(c.Call.Args[0])
 				ep = p[strings.LastIndex(p, ".")+1:]
-				if !strings.Contains(fx.path(c.Call.Args[1]), "issuer") {
+				if fx.T(fx.path(c.Call.Args[1])) != "<#2 string>" {
 					problems = append(problems, "Location of "+list+" is made absolute with "+fx.path(c.Call.Args[1])+" instead of the request's issuer")
 				}
 			}
@@ -91,12 +91,19 @@ func checkC11(cx *Ctx, r *Report) {
 			r.Fail("R-VFG", e.short+":issuer", "", "handler not found")
 			continue
 		}
-		ls, sites := vf.StoreSourcesIn("provider.getIssuer", "saml.NameIDType", "Text")
-		if len(sites) == 0 {
-			r.Fail("R-VFG", e.short+":issuer", "", "getIssuer is not reached from this handler")
+		nIss := 0
+		for _, o := range []string{"samlp.ResponseType", "saml.AssertionType", "samlp.LogoutResponseType"} {
+			ls, n := vf.NestedFieldSources(o, "Issuer", "saml.NameIDType", "Text")
+			if n == 0 {
+				continue
+			}
+			nIss++
+			r.checkSources("R-VFG", e.short+":issuer:"+o, "", ls, entityIDSources, []string{"ext:iface:context.Context.Value#0"}, false)
+		}
+		if nIss == 0 {
+			r.Fail("R-VFG", e.short+":issuer", "", "no message Issuer is filled by this handler")
 			continue
 		}
-		r.checkSources("R-VFG", e.short+":issuer", w.InstrPos(sites[0]), ls, entityIDSources, []string{"ext:iface:context.Context.Value#0"}, false)
 		// the context is the request's
 		lc, cs := vf.CallArgSources(matchFnKey(w, "provider.(*IdentityProvider).GetEntityID"), 1)
 		if len(cs) == 0 {
@@ -108,7 +115,7 @@ func checkC11(cx *Ctx, r *Report) {
 		for _, f := range []struct{ o, f string }{{"provider.Response", "Issuer"}, {"provider.LogoutResponse", "Issuer"}} {
 			li, si := vf.FieldStoreSources(f.o, f.f)
 			if len(si) > 0 {
-				r.checkSources("R-VFG", e.short+":"+f.o+"."+f.f, w.InstrPos(si[0]), li, entityIDSources, []string{"ext:iface:context.Context.Value#0"}, false)
+				r.checkSources("R-VFG", e.short+":"+f.o+"."+f.f, w.InstrPos(si[0]), vf.Deep(li), entityIDSources, []string{"ext:iface:context.Context.Value#0"}, false)
 			}
 		}
 	}
@@ -118,7 +125,7 @@ func checkC11(cx *Ctx, r *Report) {
 		if len(sites) == 0 {
 			r.Fail("R-VFG", "metadata:entityID", "", "the metadata document gets no entityID")
 		} else {
-			r.checkSources("R-VFG", "metadata:entityID", w.InstrPos(sites[0]), ls, entityIDSources, []string{"ext:iface:context.Context.Value#0"}, false)
+			r.checkSources("R-VFG", "metadata:entityID", w.InstrPos(sites[0]), vm.Deep(ls), entityIDSources, []string{"ext:iface:context.Context.Value#0"}, false)
 		}
 		lc, cs := vm.CallArgSources(matchFnKey(w, "provider.(*Provider).GetMetadata"), 1)
 		if len(cs) > 0 {
@@ -127,7 +134,7 @@ func checkC11(cx *Ctx, r *Report) {
 		// what is served is the document just built for this request
 		lw, ws := vm.CallArgSources(matchFnKey(w, "xml.WriteXMLMarshalled"), 1)
 		if len(ws) > 0 {
-			r.checkSources("R-VFG", "metadata:served-document", w.InstrPos(ws[0]), lw, []string{"alloc:provider.(*Config).getMetadata/*"}, []string{"alloc:provider.(*Config).getMetadata/*"}, false)
+			r.checkSources("R-VFG", "metadata:served-document", w.InstrPos(ws[0]), lw, []string{"alloc:{md.EntityDescriptorType}*"}, []string{"alloc:{md.EntityDescriptorType}*"}, false)
 		} else {
 			r.Fail("R-VFG", "metadata:served-document", "", "the metadata handler does not write a document")
 		}
@@ -139,9 +146,9 @@ func checkC11(cx *Ctx, r *Report) {
 		ok := false
 		for _, ret := range returnsOf(ge) {
 			if c, isC := ret.Results[0].(*ssa.Call); isC {
-				if f := calleeOf(c); f != nil && w.FuncKey(f) == "provider.(Endpoint).Absolute" && strings.HasSuffix(fx.path(c.Call.Args[0]), "p.metadataEndpoint") {
+				if f := calleeOf(c); f != nil && w.FuncKey(f) == "provider.(Endpoint).Absolute" && strings.HasSuffix(fx.T(fx.path(c.Call.Args[0])), "<provider.IdentityProvider>.metadataEndpoint") {
 					if ic, isC2 := c.Call.Args[1].(*ssa.Call); isC2 {
-						if g := calleeOf(ic); g != nil && w.FuncKey(g) == "provider.IssuerFromContext" && fx.path(ic.Call.Args[0]) == "GetEntityID/ctx" {
+						if g := calleeOf(ic); g != nil && w.FuncKey(g) == "provider.IssuerFromContext" && fx.T(fx.path(ic.Call.Args[0])) == "<context.Context>" {
 							ok = true
 						}
 					}
@@ -191,18 +198,18 @@ func checkC11(cx *Ctx, r *Report) {
 		// metadata route
 		okMeta := false
 		for _, rt := range cx.routes() {
-			if w.FuncKey(rt.Handler) == kMeta && strings.HasPrefix(rt.Endpoint, "Relative(") && strings.HasSuffix(strings.TrimSuffix(rt.Endpoint, ")"), "p.metadataEndpoint") {
+			if w.FuncKey(rt.Handler) == kMeta && strings.HasPrefix(rt.Endpoint, "Relative(") && strings.HasSuffix(fx.T(strings.TrimSuffix(rt.Endpoint, ")")), "<provider.Provider>.metadataEndpoint") {
 				okMeta = true
 			}
 		}
 		r.Check(okMeta, "R-SIB", "route:metadata", "", "the metadata handler is routed at metadataEndpoint.Relative()", "the metadata handler is not routed at metadataEndpoint.Relative()")
 		// both sides from endpointConfigToEndpoints of the same config field
-		for _, site := range []struct{ fn, want string }{{"provider.(*IdentityProviderConfig).getMetadata", "p.Endpoints"}, {"provider.NewIdentityProvider", "conf.Endpoints"}} {
+		for _, site := range []struct{ fn, want string }{{"provider.(*IdentityProviderConfig).getMetadata", "<provider.IdentityProviderConfig>.Endpoints"}, {"provider.NewIdentityProvider", "<provider.IdentityProviderConfig>.Endpoints"}} {
 			f := w.Func(site.fn)
 			ok := false
 			if f != nil {
 				for _, c := range callsIn(f) {
-					if g := calleeOf(c); g != nil && w.FuncKey(g) == "provider.endpointConfigToEndpoints" && strings.HasSuffix(fx.path(c.Common().Args[0]), site.want) {
+					if g := calleeOf(c); g != nil && w.FuncKey(g) == "provider.endpointConfigToEndpoints" && strings.HasSuffix(fx.T(fx.path(c.Common().Args[0])), site.want) {
 						ok = true
 					}
 				}
@@ -213,7 +220,7 @@ func checkC11(cx *Ctx, r *Report) {
 		if ni := w.Func("provider.NewIdentityProvider"); ni != nil {
 			ok := false
 			for _, st := range fx.info(ni).stores {
-				if fa, isFA := st.Addr.(*ssa.FieldAddr); isFA && fieldOwner(fa.X.Type()) == "provider.IdentityProvider" && fieldVar(fa.X.Type(), fa.Field).Name() == "conf" && fx.path(st.Val) == "NewIdentityProvider/conf" {
+				if fa, isFA := st.Addr.(*ssa.FieldAddr); isFA && fieldOwner(fa.X.Type()) == "provider.IdentityProvider" && fieldVar(fa.X.Type(), fa.Field).Name() == "conf" && fx.T(fx.path(st.Val)) == "<provider.IdentityProviderConfig>" {
 					ok = true
 				}
 			}
@@ -325,8 +332,8 @@ func (cx *Ctx) checkEndpointFuncs(r *Report) {
 	for _, ret := range returnsOf(abs) {
 		la.addAll(lv.Labels(ret.Results[0]), 0)
 	}
-	r.checkSources("R-SIB", "Endpoint.Relative", w.FnPos(rel), lr, []string{"const:/", "param:provider.(Endpoint).Relative/e.path"}, []string{"const:/", "param:provider.(Endpoint).Relative/e.path"}, false)
-	r.checkSources("R-SIB", "Endpoint.Absolute", w.FnPos(abs), la, []string{"const:/", "param:provider.(Endpoint).Absolute/e.path", "param:provider.(Endpoint).Absolute/e.url", "param:provider.(Endpoint).Absolute/host"}, []string{"param:provider.(Endpoint).Absolute/e.path", "param:provider.(Endpoint).Absolute/host"}, false)
+	r.checkSources("R-SIB", "Endpoint.Relative", w.FnPos(rel), lr, []string{"const:*", "param:provider.(Endpoint).Relative/#0.path"}, []string{"const:/", "param:provider.(Endpoint).Relative/#0.path"}, false)
+	r.checkSources("R-SIB", "Endpoint.Absolute", w.FnPos(abs), la, []string{"const:*", "param:provider.(Endpoint).Absolute/#0.path", "param:provider.(Endpoint).Absolute/#0.url", "param:provider.(Endpoint).Absolute/#1"}, []string{"param:provider.(Endpoint).Absolute/#0.path", "param:provider.(Endpoint).Absolute/#1"}, false)
 	// both go through relativeEndpoint
 	for _, f := range []*ssa.Function{rel, ae} {
 		ok := false
